@@ -23,6 +23,7 @@ package cmd
 //@ external grits/process.Typecheck
 //@   emits tchecked = ite(result == nil, 1, 2)
 //@ external grits/process.InitializeProcesses
+//@   requires re != nil && (re.Typechecked ==> tchecked == 1)      // the runtime may rely on types only if typechecking ran and succeeded
 //@   emits executed = true
 // The other run modes (benchmarks, web server) are outside the property's scope: assumed not to start the
 // interpreter on the given file.
@@ -39,5 +40,6 @@ package cmd
 //@   ensures C18.gate: executed ==> parsed == 1 && (tchecked == 1 || (tchecked == 0 && !typecheckWanted())) && executeWanted()
 //@   ensures C18.noexecute: flagOn("noexecute") ==> !executed
 //@   ensures C18.errors: parsed != 2 && tchecked != 2
+//@   ensures C18.parses: !flagOn("sample-benchmarks") && !flagOn("benchmark") && !flagOn("webserver") ==> parsed == 1      // a run on a file always parses it (all other exits are fatal)
 //@   ensures C18.checked: parsed == 1 && typecheckWanted() ==> tchecked == 1
 //@   safety C18
